@@ -129,7 +129,22 @@ func (t *GoType) HasDirectMethod(name string) bool {
 	return t.isDirectMethod[name]
 }
 
+// GetConverter returns the TypeConverter for this type, creating it on first
+// use. This is safe for concurrent use by multiple goroutines.
 func (t *GoType) GetConverter() (TypeConverter, error) {
+	goTypeMutex.RLock()
+	conv := t.converter
+	goTypeMutex.RUnlock()
+	if conv != nil {
+		return conv, nil
+	}
+	goTypeMutex.Lock()
+	defer goTypeMutex.Unlock()
+	return t.getConverter()
+}
+
+// getConverter is GetConverter for callers that already hold goTypeMutex.
+func (t *GoType) getConverter() (TypeConverter, error) {
 	if t.converter != nil {
 		return t.converter, nil
 	}
